@@ -279,6 +279,12 @@ class Program:
                     n, names = inline_module(mod.tree)
                     if n:
                         self.inlined.setdefault(rel, {}).update({"call_sites": n, "helpers": names})
+                    if n and self.inlined.get(rel, {}).get("new_options_at_default"):
+                        from .newoptions import fold_after_inlining, unroll_singleton_params
+                        fold_after_inlining(mod.tree)
+                        un = unroll_singleton_params(mod.tree)
+                        if un:
+                            self.inlined.setdefault(rel, {})["singleton_params_unrolled"] = un
                     if rel not in ("anytree/node/nodemixin.py", "anytree/node/lightnodemixin.py"):
                         k = propagate_aliases(mod.tree, _PROPERTY_NAMES)
                         if k:
